@@ -123,7 +123,10 @@ def _has_undef_fn(m):
         if isinstance(s, Assignment):
             for f in s.expression._sympy_().atoms(sympy.Function):
                 name = getattr(f.func, '__name__', str(f.func))
-                if (isinstance(f, AppliedUndef) and not name.startswith('A_')) or not type(f).__module__.startswith('sympy'):
+                if isinstance(f, AppliedUndef):
+                    if not name.startswith('A_'):
+                        return True
+                elif not (type(f).__module__ or '').startswith('sympy'):
                     return True
     return False
 
@@ -349,6 +352,7 @@ def build_model(spec):
         nm = _corpus_name(src.get('name'), names)
         m = corpus.get(nm)
         labels.append('src:' + nm)
+    note_model(m)
     for step in (spec.get('prior') or [])[:3]:
         try:
             f, a = _idx(PRIORS, step[0]), int(step[1])
@@ -935,16 +939,25 @@ def _compare_datasets(m, m2):
             raise Violation('refactor:reload_dataset:values', detail=f'column {c}')
 
 
+def _gen_specs():
+    from ..gen import gen_nm as G
+
+    pred = st.fixed_dictionaries(dict(kind=st.just('pred'), body=st.lists(G.stmt_strategy(2), min_size=3, max_size=8).map(G._l), **c01.SPEC_COMMON))
+    return pred
+
+
+PRED_SPEC = _gen_specs()
+
 REFACTOR_SPEC = st.fixed_dictionaries(
     dict(
         src=st.one_of(
-            st.fixed_dictionaries(dict(kind=st.just('corpus'), name=st.integers(0, 23))),
-            st.fixed_dictionaries(dict(kind=st.just('corpus'), name=st.integers(0, 23))),
-            st.fixed_dictionaries(dict(kind=st.just('gen'), spec=c01.PRED_SPEC)),
+            st.fixed_dictionaries(dict(kind=st.just('corpus'), name=st.sampled_from(list(range(28))))),
+            st.fixed_dictionaries(dict(kind=st.just('corpus'), name=st.sampled_from(list(range(28))))),
+            st.fixed_dictionaries(dict(kind=st.just('gen'), spec=PRED_SPEC)),
             st.fixed_dictionaries(dict(kind=st.just('gen'), spec=c01.ADVAN_SPEC)),
         ),
-        prior=st.lists(st.tuples(st.integers(0, len(PRIORS) - 1), st.integers(0, 60)).map(list), min_size=0, max_size=3),
-        r=st.integers(0, len(REFACS) - 1),
+        prior=st.lists(st.tuples(st.sampled_from(list(range(len(PRIORS)))), st.integers(0, 60)).map(list), min_size=0, max_size=3),
+        r=st.sampled_from(list(range(len(REFACS)))),
         a=st.integers(0, 200),
         ren=st.lists(st.integers(0, 200), min_size=1, max_size=6),
         k=st.integers(0, 40),
@@ -976,8 +989,8 @@ ODE_STEPS = [
 
 SOLVE_SPEC = st.fixed_dictionaries(
     dict(
-        start=st.integers(0, 20),
-        steps=st.lists(st.tuples(st.integers(0, len(ODE_STEPS) - 1), st.integers(0, 60)).map(list), min_size=0, max_size=2),
+        start=st.sampled_from(list(range(14))),
+        steps=st.lists(st.tuples(st.sampled_from(list(range(len(ODE_STEPS)))), st.integers(0, 60)).map(list), min_size=0, max_size=2),
         k=st.integers(0, 60),
         tt=st.lists(st.integers(1, 200), min_size=3, max_size=3),
     )
@@ -1182,6 +1195,7 @@ def eval_model_source(spec):
     else:
         m = _pheno_linear()
         labels.append('src:pheno_linear')
+    note_model(m)
     for step in (spec.get('prior') or [])[:2]:
         label, fn = EVAL_PRIORS[_idx(EVAL_PRIORS, step[0])]
         try:
@@ -1586,6 +1600,17 @@ def run_evaluators(spec):
 
     # ---- get_individual_parameters / get_pk_parameters sanity -------------------------------
     names_all = set(assigned_names(m))
+    try:
+        _individual_parameter_sanity(m, pm, doc, names_all)
+        classes.append('get_individual_parameters')
+    except Reject:
+        classes.append('get_individual_parameters-refused')
+
+    nt = bool(feats & {'reassigned', 'piecewise'}) and bool(etas)
+    return CaseInfo(nontrivial=nt, classes=tuple(classes), key=model_key(m, 'eval'), render=dict(model=labels, statements=stmts_key(m).split('\n')[:25]), evals=evals)
+
+
+def _individual_parameter_sanity(m, pm, doc, names_all):
     ip_all = guard(lambda: _quiet(pm.get_individual_parameters, m), allowed=doc + (KeyError,), clause='get_individual_parameters', internal_is_violation=False)
     for lvl in ('iiv', 'iov', 'random'):
         sub_ = guard(lambda: _quiet(pm.get_individual_parameters, m, lvl), allowed=doc + (KeyError,), clause='get_individual_parameters', internal_is_violation=False)
@@ -1596,19 +1621,16 @@ def run_evaluators(spec):
     if ip_all != sorted(ip_all):
         raise Violation('get_individual_parameters:not-sorted', observed=ip_all)
 
-    nt = bool(feats & {'reassigned', 'piecewise'}) and bool(etas)
-    return CaseInfo(nontrivial=nt, classes=tuple(classes), key=model_key(m, 'eval'), render=dict(model=labels, statements=stmts_key(m).split('\n')[:25]), evals=evals)
-
 
 EVAL_SPEC = st.fixed_dictionaries(
     dict(
         src=st.one_of(
-            st.fixed_dictionaries(dict(kind=st.just('gen'), spec=c01.PRED_SPEC, ytail=st.integers(0, len(YTAILS) - 1))),
-            st.fixed_dictionaries(dict(kind=st.just('gen'), spec=c01.PRED_SPEC, ytail=st.integers(0, len(YTAILS) - 1))),
-            st.fixed_dictionaries(dict(kind=st.just('solved'), name=st.integers(0, 9))),
+            st.fixed_dictionaries(dict(kind=st.just('gen'), spec=PRED_SPEC, ytail=st.just(0))),
+            st.fixed_dictionaries(dict(kind=st.just('gen'), spec=PRED_SPEC, ytail=st.sampled_from([0, 0, 1, 2, 3, 4]))),
+            st.fixed_dictionaries(dict(kind=st.just('solved'), name=st.sampled_from(list(range(10))))),
             st.fixed_dictionaries(dict(kind=st.just('linear'))),
         ),
-        prior=st.lists(st.tuples(st.integers(0, len(EVAL_PRIORS) - 1), st.integers(0, 60)).map(list), min_size=0, max_size=2),
+        prior=st.lists(st.tuples(st.sampled_from(list(range(len(EVAL_PRIORS)))), st.integers(0, 60)).map(list), min_size=0, max_size=2),
         a=st.integers(0, 200),
         k=st.integers(0, 40),
     )
